@@ -72,8 +72,8 @@ func (msg MsgCreateClient) ValidateBasic() error {
 		return errorsmod.Wrapf(ibcerrors.ErrInvalidAddress, "string could not be parsed as address: %v", err)
 	}
 	// validate the total size of client state
-	if len(msg.ClientState.Value) > MaxClientStateSize {
-		return errorsmod.Wrapf(ibcerrors.ErrTooLarge, "client state size %d exceeds max size %d", len(msg.ClientState.Value), MaxClientStateSize)
+	if len(msg.ClientState.GetValue()) > MaxClientStateSize {
+		return errorsmod.Wrapf(ibcerrors.ErrTooLarge, "client state size %d exceeds max size %d", len(msg.ClientState.GetValue()), MaxClientStateSize)
 	}
 	clientState, err := UnpackClientState(msg.ClientState)
 	if err != nil {
@@ -83,8 +83,8 @@ func (msg MsgCreateClient) ValidateBasic() error {
 		return err
 	}
 	// validate the total size of consensus state
-	if len(msg.ConsensusState.Value) > MaxConsensusStateSize {
-		return errorsmod.Wrapf(ibcerrors.ErrTooLarge, "consensus state size %d exceeds max size %d", len(msg.ConsensusState.Value), MaxConsensusStateSize)
+	if len(msg.ConsensusState.GetValue()) > MaxConsensusStateSize {
+		return errorsmod.Wrapf(ibcerrors.ErrTooLarge, "consensus state size %d exceeds max size %d", len(msg.ConsensusState.GetValue()), MaxConsensusStateSize)
 	}
 	consensusState, err := UnpackConsensusState(msg.ConsensusState)
 	if err != nil {
